@@ -149,7 +149,14 @@ func verifC30Fail(rt *rapid.T, test string, plan any, recs []verifC30Rec, format
 // goroutines have been joined.
 func TestVerifC30Concurrent(t *testing.T) {
 	col := kit.For(t, "C30")
+	var tGen, tRun, tJudge time.Duration
+	defer func() {
+		if os.Getenv("VERIF_C30_TIMING") != "" {
+			t.Logf("timing: gen=%v run=%v judge=%v", tGen, tRun, tJudge)
+		}
+	}()
 	kit.Check(t, "C30", func(rt *rapid.T, k *kit.Case) {
+		t0 := time.Now()
 		nodeID := rapid.SampledFrom([]uint64{0, 1, 7, 512, 1023}).Draw(rt, "node")
 		var g int
 		switch rapid.IntRange(0, 3).Draw(rt, "gClass") {
@@ -172,6 +179,8 @@ func TestVerifC30Concurrent(t *testing.T) {
 		}
 		warm := rapid.IntRange(0, 3).Draw(rt, "warm")
 
+		tGen += time.Since(t0)
+		t0 = time.Now()
 		ids, err := newNodeMessageIDs(nodeID)
 		if err != nil {
 			rt.Fatalf("newNodeMessageIDs(%d): %v", nodeID, err)
@@ -252,6 +261,9 @@ func TestVerifC30Concurrent(t *testing.T) {
 		}
 		endFloor := ids.floor.Load()
 		endProbe := uint64(ids.node.Generate())
+		tRun += time.Since(t0)
+		t0 = time.Now()
+		defer func() { tJudge += time.Since(t0) }()
 
 		all := append([]verifC30Rec(nil), warmRecs...)
 		for _, r := range recs {
